@@ -149,6 +149,9 @@ func GenE2(prop string, seed uint64) *Program {
 	case "C15":
 		scenario = "ckpt"
 		nk = 1 + r.Intn(3)
+	case "C06":
+		scenario = "insert-race"
+		nk = 1
 	case "C13":
 		scenario = "openclose"
 		prog.NHandles = 1
@@ -371,6 +374,34 @@ func GenE2(prop string, seed uint64) *Program {
 		}
 		prog.NoLin = true
 		prog.NoFeedOracle = true
+	case "insert-race":
+		// the key has no body (never written, or deleted with or without xattrs); every client tries to
+		// create it through an insert-style entry point: at most one may succeed
+		switch r.Intn(3) {
+		case 1:
+			prog.Setup = append(prog.Setup, Op{Kind: "Set", Key: g.keys[0], Body: strp(g.jsonBody())}, Op{Kind: "Delete", Key: g.keys[0]})
+		case 2:
+			prog.Setup = append(prog.Setup, Op{Kind: "Set", Key: g.keys[0], Body: strp(g.jsonBody())}, Op{Kind: "SetXattrs", Key: g.keys[0], Xattrs: map[string]string{"_sync": `{"r":1}`}}, Op{Kind: "Delete", Key: g.keys[0]})
+		}
+		for t := 0; t < nt; t++ {
+			var op Op
+			switch r.Intn(6) {
+			case 0:
+				op = Op{Kind: "Add", Body: strp(g.jsonBody())}
+			case 1:
+				op = Op{Kind: "AddRaw", Body: strp(g.rawBody())}
+			case 2:
+				op = Op{Kind: "WriteCas", Body: strp(g.jsonBody()), WOpt: int(sgbucket.AddOnly), CasMode: "zero"}
+			case 3:
+				op = Op{Kind: "WriteCas", Body: strp(g.jsonBody()), CasMode: "zero"}
+			case 4:
+				op = Op{Kind: "WriteResurrectionWithXattrs", Body: strp(g.jsonBody()), Xattrs: g.xattrSet(0, 1)}
+			default:
+				op = Op{Kind: "WriteWithXattrs", Body: strp(g.jsonBody()), Xattrs: g.xattrSet(1, 1), CasMode: "zero", XDelNil: true}
+			}
+			op.Key, op.Handle = g.keys[0], r.Intn(prog.NHandles)
+			prog.Tasks = append(prog.Tasks, []Op{op})
+		}
 	case "openclose":
 		prog.NoLin, prog.NoFeedOracle = true, true
 		for t := 0; t < 2+r.Intn(3); t++ {
